@@ -557,3 +557,52 @@ def named(t, prefix="n"):
 def T(x):
     """z3 term of a proxy or number"""
     return lift(x)
+
+
+class SInt:
+    """symbolic integer (loop counters in the C10 ranking check)"""
+
+    __slots__ = ("t",)
+
+    def __init__(self, t):
+        self.t = t
+
+    @staticmethod
+    def _l(b):
+        if isinstance(b, SInt):
+            return b.t
+        if isinstance(b, (int, numpy.integer)) and not isinstance(b, bool):
+            return z3.IntVal(int(b))
+        raise Unsupported("SInt with %r" % (b,))
+
+    def __add__(a, b):
+        return SInt(a.t + SInt._l(b))
+
+    __radd__ = __add__
+
+    def __sub__(a, b):
+        return SInt(a.t - SInt._l(b))
+
+    def __gt__(a, b):
+        return SBool(a.t > SInt._l(b))
+
+    def __ge__(a, b):
+        return SBool(a.t >= SInt._l(b))
+
+    def __lt__(a, b):
+        return SBool(a.t < SInt._l(b))
+
+    def __le__(a, b):
+        return SBool(a.t <= SInt._l(b))
+
+    def __eq__(a, b):
+        return SBool(a.t == SInt._l(b))
+
+    def __ne__(a, b):
+        return SBool(a.t != SInt._l(b))
+
+    def __hash__(a):
+        return 0
+
+    def __repr__(a):
+        return "SInt(%s)" % a.t
